@@ -29,6 +29,7 @@ ILLEGAL = {"bare": "x", "legacy": "x", "segv0": "ux", "tap": "u"}
 DESC_CTX = {"wsh": "segv0", "sh-wsh": "segv0", "wpkh": "segv0", "sh-wpkh": "segv0", "sh": "legacy", "pkh": "legacy",
             "bare": "bare", "tr": "tap"}
 EO_CODE = {"type": 0, "uncompressed": 1, "xonly": 2, "multi_a": 3, "tapmulti": 4}
+SIZE_LIMIT = {"bare": 10000, "legacy": 520, "segv0": 3600, "tap": 4000000}
 KIND_CODE = {"c": 0, "u": 1, "x": 2}
 
 
@@ -52,7 +53,7 @@ def parse_output(text):
             o["I"].setdefault(f[1], {})[int(f[2])] = (ilist(f[3]), allv == "1", ilist(each), ilist(f[5]), f[6], f[7])
         elif k == "T":
             o["T"].append({"dom": f[1], "vid": int(f[2]), "mapid": int(f[3]), "res": f[4], "calls": ilist(f[5]),
-                           "ty": f[6], "script": f[7], "eq": f[8]})
+                           "ty": f[6], "script": f[7], "eq": f[8], "slen": f[9] if len(f) > 9 else "-"})
         elif k == "D":
             o["D"].setdefault(f[1], {})[int(f[2])] = f[3]
         elif k == "C":
@@ -176,10 +177,14 @@ def oracle(rep, o, seed):
             st["outer_err"] += 1
             cls = res[1]
             want_kind = {"uncompressed": "u", "xonly": "x"}.get(cls)
-            if want_kind is None or not any(kinds[fp[k]] == want_kind for k in illegal):
+            # the mapped keys are longer and the substituted script exceeds the context's script-size limit
+            too_big = cls == "size" and ctx and t["slen"] != "-" and int(t["slen"]) > SIZE_LIMIT[ctx]
+            if too_big:
+                st["size_failures"] = st.get("size_failures", 0) + 1
+            elif want_kind is None or not any(kinds[fp[k]] == want_kind for k in illegal):
                 viol("fail-other:%s" % cls, "translation fails with a context error although no mapped key is illegal in the context", dom, vid, ex)
         # a mapping that is defined on every key and produces only legal keys must succeed
-        if res[0] != "OK" and not unmapped and not illegal and fail_at is None:
+        if res[0] != "OK" and not unmapped and not illegal and fail_at is None and not (res[0] == "EO" and too_big):
             viol("fail-without-cause", "translation fails although every key is mapped to a key that is legal in the context", dom, vid, ex)
     # composition, checked on the token level from the observed results: rename then identity etc. is covered by
     # the model; here: iterators
@@ -396,6 +401,7 @@ def run(rep, tier, seed, replay):
     })
     rep.assumptions = [
         "hash translation is the identity in all runs (Translator::sha256 etc. clone); only key translation is modelled",
-        "script-size and recursion-depth limits of from_ast are not reached by the generated values (not modelled; a parameter of the theorems)",
+        "ext.pk_cost equals the length of the encoded script (C09's subject): the model's script-size re-check uses the encoder's length; "
+        "a size failure is accepted by the oracle iff the byte-level substituted script exceeds the context's limit; the recursion-depth limit is not reached",
         "policy translation is judged by the oracle only (no Coq model of the policy types)",
         "the byte-level script check is skipped for values containing sortedmulti (the key order may legitimately change)"]
